@@ -41,7 +41,9 @@
     (and (string-cursor>? end (if (pair? o)
                                   (->cursor str (car o))
                                   (string-cursor-start str)))
-         (let lp ((i (string-cursor-start str)))
+         (let lp ((i (if (pair? o)
+                         (->cursor str (car o))
+                         (string-cursor-start str))))
            (let ((i2 (string-cursor-next str i))
                  (ch (string-cursor-ref str i)))
              (if (string-cursor>=? i2 end)
